@@ -146,3 +146,56 @@ func (OlvmTransfer) Gen(c *Ctx) []Tx {
 	}
 	return []Tx{{Bytes: b, Kind: kind}}
 }
+
+// Failures: transactions designed to fail after the handler has already written something.
+type Failures struct{}
+
+func (Failures) Name() string { return "failures" }
+func (Failures) Gen(c *Ctx) []Tx {
+	var out []Tx
+	n := 1 + c.Rng.Intn(3)
+	for i := 0; i < n; i++ {
+		u := c.W.Users[pick(c.Rng, len(c.W.Users))]
+		fee := core.DefaultFee()
+		switch c.Rng.Intn(6) {
+		case 0:
+			// gas limit smaller than use: fee step fails after the handler succeeded
+			fee.Gas = int64(1 + c.Rng.Intn(40))
+			to := c.W.Users[pick(c.Rng, len(c.W.Users))].Addr
+			msg := &transfer.Send{From: u.Addr, To: to, Amount: core.OLT(big.NewInt(1 + c.Rng.Int63n(1000)))}
+			out = append(out, Tx{Bytes: core.BuildTx(msg, fee, memo(c), u), Kind: "SEND/gas-too-low"})
+		case 1:
+			// delegate the whole balance: handler debits, fee cannot be paid
+			bal := c.Ref.BalanceOf(u.Addr, "OLT")
+			msg := &network_delegation.AddNetworkDelegation{DelegationAddress: u.Addr, Amount: core.OLT(bal)}
+			out = append(out, Tx{Bytes: core.BuildTx(msg, fee, memo(c), u), Kind: "ADD_NETWORK_DELEGATE/all"})
+		case 2:
+			// send to pool the whole balance
+			bal := c.Ref.BalanceOf(u.Addr, "OLT")
+			msg := &transfer.SendPool{From: u.Addr, PoolName: "BountyPool", Amount: core.OLT(bal)}
+			out = append(out, Tx{Bytes: core.BuildTx(msg, fee, memo(c), u), Kind: "SENDPOOL/all"})
+		case 3:
+			// undelegate more than delegated
+			msg := &network_delegation.Undelegate{Delegator: u.Addr, Amount: core.OLT(nueOf(100000000))}
+			out = append(out, Tx{Bytes: core.BuildTx(msg, fee, memo(c), u), Kind: "NETWORK_UNDELEGATE/too-much"})
+		case 4:
+			// stake by a candidate with a huge amount
+			if len(c.W.Candidates) > 0 {
+				vk := c.W.Candidates[pick(c.Rng, len(c.W.Candidates))]
+				msg := &staking.Stake{ValidatorAddress: vk.ValKey.Addr, StakeAddress: vk.NodeKey.Addr, ValidatorPubKey: vk.ValKey.Pub,
+					ValidatorECDSAPubKey: vk.EcPub, NodeName: vk.Name, Stake: core.OLTi(1 << 40)}
+				out = append(out, Tx{Bytes: core.BuildTx(msg, fee, memo(c), vk.NodeKey, vk.ValKey), Kind: "STAKE/huge"})
+			}
+		default:
+			// OLVM transfer of more than the balance
+			if len(c.W.EthUsers) > 0 {
+				from := c.W.EthUsers[pick(c.Rng, len(c.W.EthUsers))]
+				to := c.W.EthUsers[pick(c.Rng, len(c.W.EthUsers))].Addr
+				bal := c.Ref.BalanceOf(from.Addr, "OLT")
+				b := core.BuildOLVM(c.W.ChainID, from, &to, c.S.EthNonce[from.Label], bal, nil, 100000, big.NewInt(1000000000), nil, nil)
+				out = append(out, Tx{Bytes: b, Kind: "OLVM/overdraw"})
+			}
+		}
+	}
+	return out
+}
